@@ -170,10 +170,14 @@ def run_shard(ctx, p):
     for ai in range(p['arrays']):
         nch = rng.choice([1, 2, 3, 4, 5, 6, 8, 10, rng.randint(1, 10)])
         nfr = rng.choice([1, 2, 3, 5, 8, rng.randint(1, 80), rng.randint(1, 80)])
+        if rng.random() < 0.03:
+            # long logs: more frames than any plausible write buffer (1 Ki, 2 Ki, 4 Ki rows) holds, few channels to stay cheap
+            nfr = rng.choice([1024, 1025, 2048, 2049, 4097, rng.randint(1025, 2600)])
+            nch = min(nch, 3)
         fw = rng.randint(4, 24)
         d = rng.randint(0, 8)
         fmt = '.%df' % d
-        general = rng.random() < 0.15
+        general = rng.random() < 0.15 and nfr <= 80     # three significant digits cannot keep 1000 index values distinct
         if general:
             # the option takes any Python float format: general / exponent forms count significant digits, not decimals
             fmt = rng.choice(['.3', '.5', '.8', '.4g', '.7g', '.3e', '.6e'])
@@ -187,6 +191,9 @@ def run_shard(ctx, p):
             units = rng.choice(G.UNITS) if rng.random() < 0.8 else ''
             if G._retypable(units):
                 units = 'M'
+            if rng.random() < 0.06:
+                # units that look like numbers (scale factors, counts): text all the same
+                units = rng.choice(['1', '100', '0.1', '1e-3', '5', '1000', '1E3', '0.001'])
             long_name = G.rand_text(rng, allow_colon=rng.random() < 0.2)
             dtype = rng.choice(DTYPES)
             shape = rand_shape(rng) if (c > 0 or (rng.random() < 0.25 and not general)) else (1,)
